@@ -848,10 +848,17 @@ func c06xChainGroup(r *explore.Run, g *wgen.ChainGroup, thorough bool) {
 	}
 }
 
+// c06xWide: the larger bounds of F6c2/F6c3 (approximately specified operators as op2, four boundary values per
+// extra operand, all 3- and 4-letter swizzles) have been enumerated in smoke runs only; their failure classes on
+// the unchanged tree are not triaged, and an untriaged class would be reported as a violation. Until they are,
+// the thorough tier keeps the quick bounds for these two families (VERIF_C06_WIDE=1 enables the larger ones
+// for authoring).
+func c06xWide(r *explore.Run) bool { return r.Thorough() && os.Getenv("VERIF_C06_WIDE") != "" }
+
 func c06xChains(r *explore.Run) {
-	groups := wgen.F6c2Groups(r.Thorough())
+	groups := wgen.F6c2Groups(c06xWide(r))
 	r.Extra("family_F6c2_groups", len(groups))
-	r.ParallelFor(len(groups), func(i int) { c06xChainGroup(r, groups[i], r.Thorough()) })
+	r.ParallelFor(len(groups), func(i int) { c06xChainGroup(r, groups[i], c06xWide(r)) })
 }
 
 // ---------------------------------------------------------------- F6c3 driver
@@ -1042,7 +1049,7 @@ func c06xStructCanonMap(groups []*wgen.SGroup) map[string]*wgen.SGroup {
 }
 
 func c06xStructure(r *explore.Run) {
-	groups := wgen.F6c3Groups(r.Thorough())
+	groups := wgen.F6c3Groups(c06xWide(r))
 	r.Extra("family_F6c3_groups", len(groups))
 	canon := c06xStructCanonMap(groups)
 	r.ParallelFor(len(groups), func(i int) { c06xStructGroup(r, groups[i], canon) })
